@@ -88,6 +88,7 @@ class NonThreadedExecutor:
 
         self.excinfo = None
         self.errorstack = None
+        self.rolledback.clear()
         self.is_executing = True
 
         try:
@@ -172,6 +173,7 @@ class ThreadedExecutor(NonThreadedExecutor):
         self.initnode = node
         self.excinfo = None
         self.errorstack = None
+        self.rolledback.clear()
         try:
             self.is_executing = True
             self.thread.signal_start.set()
@@ -291,7 +293,9 @@ class CallStack(deque):
     def rollback(self):
         node = deque.pop(self)
         self.idxstack.pop()
-        self.executor.rolledback.append(node)
+        # Keep the exception being propagated to tell apart the nodes
+        # rolled back by an exception that a formula handled by itself
+        self.executor.rolledback.append((node, sys.exc_info()[1]))
         self.counter -= 1
         cells = node[OBJ]
 
@@ -379,19 +383,24 @@ class ErrorStack(deque):
 
         mxdir = os.path.dirname(modelx.__file__)
 
+        # Nodes rolled back by the escaping exception, innermost first
+        nodes = deque(
+            node for node, exc in rolledback if exc is execinfo[1])
+        rolledback.clear()
+
         for frame in tbexc.stack:
             if mxdir in frame.filename and frame.name == "on_eval_formula":
                 self.on_eval_flag = True
             elif not mxdir in frame.filename and self.on_eval_flag:
-                node = rolledback.pop()
+                node = nodes.pop()
                 self.append(
                     (node, frame.lineno, tb.tb_frame.f_locals.copy())
                 )
                 self.on_eval_flag = False
             tb = tb.tb_next
 
-        while rolledback:
-            node = rolledback.pop()
+        while nodes:
+            node = nodes.pop()
             self.append(
                 (node, 0, None)
             )
